@@ -1,11 +1,20 @@
 use ahash::RandomState;
 use bytes::Bytes;
+#[cfg(feoxdb_verif)]
+use crate::verif::channel::{bounded, Receiver, Sender};
+#[cfg(not(feoxdb_verif))]
 use crossbeam_channel::{bounded, Receiver, Sender};
 use crossbeam_utils::CachePadded;
+#[cfg(feoxdb_verif)]
+use crate::verif::sync::{Mutex, RwLock};
+#[cfg(not(feoxdb_verif))]
 use parking_lot::{Mutex, RwLock};
 use std::collections::VecDeque;
 use std::sync::atomic::{AtomicBool, AtomicU32, AtomicU64, AtomicUsize, Ordering};
 use std::sync::Arc;
+#[cfg(feoxdb_verif)]
+use crate::verif::thread::{self, JoinHandle};
+#[cfg(not(feoxdb_verif))]
 use std::thread::{self, JoinHandle};
 use std::time::Duration;
 
@@ -386,6 +395,8 @@ impl WriteBuffer {
                 fault_scope: self.fault_scope,
             };
 
+            #[cfg(feoxdb_verif)]
+            thread::name_next_spawn("wb_worker");
             let handle = thread::spawn(move || {
                 write_buffer_worker(ctx, flush_rx);
             });
@@ -399,6 +410,8 @@ impl WriteBuffer {
         let sharded_buffers = self.sharded_buffers.clone();
         let retirement_queue = Arc::clone(&self.retirement_queue);
 
+        #[cfg(feoxdb_verif)]
+        thread::name_next_spawn("wb_periodic");
         let periodic_handle = thread::spawn(move || {
             let interval = WRITE_BUFFER_FLUSH_INTERVAL;
 
